@@ -231,6 +231,15 @@ func NormaliseRenames(c *core.Ctx, verifDir string) []string {
 		if pk.Types.Scope().Lookup(oldName) != nil && recv == "" {
 			continue
 		}
+		// a method whose old name still resolves on the receiver (promoted through an embedded
+		// field) was not merely renamed: callers of the old name now reach the promoted method
+		if recv != "" {
+			if tn, ok := pk.Types.Scope().Lookup(recv).(*types.TypeName); ok {
+				if o, _, _ := types.LookupFieldOrMethod(types.NewPointer(tn.Type()), true, pk.Types, oldName); o != nil {
+					continue
+				}
+			}
+		}
 		n := 0
 		for _, upk := range prog.RepoPackages() {
 			for _, f := range upk.Syntax {
